@@ -27,10 +27,11 @@ REASONS = {
     'send_late': ['ping timeout', 'transport close', 'transport error'],
     'silence': ['ping timeout', 'transport close', 'transport error'],
     'post_msg': [], 'frame_msg': [],
+    'send_fault': ['transport close', 'transport error'],
 }
 TIMED = ['ping timeout', 'transport close', 'transport error']
 POLLING_CAUSES = ['post_close', 'api_disc', 'api_disc_all', 'post_bad', 'post_oversize', 'send_late', 'silence']
-WS_CAUSES = ['frame_close', 'api_disc', 'api_disc_all', 'peer_close', 'send_late', 'silence']
+WS_CAUSES = ['frame_close', 'api_disc', 'api_disc_all', 'peer_close', 'send_late', 'silence', 'send_fault']
 DH = ['record', 'raise', 'yield', 'reenter_disconnect', 'reenter_send']      # plus 'sleep' in the racing-message scenarios
 
 
@@ -151,6 +152,10 @@ class Events(core.Scenario):
                     ww.ws_close(sc.ws)
                 elif name == 'send_late':
                     ww.call('send', A, 'too-late')
+                elif name == 'send_fault':
+                    # the next write on the WebSocket fails (connection reset by the peer, who keeps the socket half-open)
+                    sc.ws.fail_send_at = getattr(sc.ws, 'nsend', 0)
+                    ww.call('send', A, 'never-arrives')
                 elif name == 'silence':
                     pass
                 elif name == 'post_msg':
@@ -304,6 +309,7 @@ def param_list(ctx):
             ps.append({'impl': impl, 'transport': tr, 'causes': [causes[0]], 'dh': 'record', 'mh': 'raise'})
             for cs in ([causes[0]], ['api_disc'], ['silence']):
                 ps.append({'impl': impl, 'transport': tr, 'causes': cs, 'dh': 'record', 'handlers': 'legacy'})
+                ps.append({'impl': impl, 'transport': tr, 'causes': cs, 'dh': 'raise', 'handlers': 'legacy'})
                 if impl == 'async':
                     ps.append({'impl': impl, 'transport': tr, 'causes': cs, 'dh': 'record', 'handlers': 'plain_functions'})
                     ps.append({'impl': impl, 'transport': tr, 'causes': cs, 'dh': 'raise', 'handlers': 'plain_functions'})
